@@ -641,6 +641,13 @@ SPECS["C15"]["parts"].append(router_part("http-accept", "TestVerifC15HTTPAccept"
 # the regexp matcher is shared by every request goroutine: its free-running race pass also decides C20 for that object
 SPECS["C20"]["parts"].append([dict(p) for p in SPECS["C11"]["parts"] if p["name"] == "concurrent-match"][0])
 
+SPECS["C17"]["parts"].append(router_part("unix", "TestVerifC17Unix", ["zz_verif_c17unix_test.go", "zz_verif_c03_test.go"], shards=1, gomaxprocs=4, budget={"quick": 120, "thorough": 120}))
+
+for _pid in ("C15", "C20"):
+    SPECS[_pid]["parts"].append(dict(name="limiter-race", pkg="internal/limiter", run="TestVerifC15Race", race=True, shards=1, gomaxprocs=4, engines=("choice", "report"),
+                                     files={"harness/limiter/zz_verif_c15race_test.go": "internal/limiter/zz_verif_c15race_test.go"},
+                                     params={"quick": {"ROUNDS": 2000}, "thorough": {"ROUNDS": 50000}}))
+
 # --------------------------------------------------------------------------------------------
 # Properties not (yet) claimed. Kept current: every property without a SPECS entry must be here.
 NOT_APPLICABLE = {
